@@ -338,7 +338,7 @@ class Interp:
                 continue            # (x as Some): the payload is projected by the following field element
             if "f" in el:
                 name = el.get("n", el["f"])
-                if isinstance(v, tuple) and v[0] in ('some', 'ok') and el["f"] == 0:
+                if isinstance(v, tuple) and v[0] in ('some', 'ok', 'newtype') and el["f"] == 0:
                     v = v[1]
                 elif isinstance(v, tuple) and v[0] == 'enum' and isinstance(el["f"], int) and el["f"] < len(v[2]):
                     v = v[2][el["f"]]
@@ -474,6 +474,8 @@ class Interp:
                     return ('some', ops[0]) if vn == "Some" and ops else ('none',)
                 if "vi" in r and self._is_enum(adt):
                     return ('enum', int(r["vi"]), tuple(ops))      # any other enum value: variant index + payload
+                if len(ops) == 1 and not adt.startswith("std::") and not adt.startswith("core::"):
+                    return ('newtype', ops[0])                      # a crate-local single-field struct is a transparent wrapper of its field
                 return self.opaque()
             if r["ak"] == "tuple":
                 return ('tuple', ops)
